@@ -75,6 +75,9 @@ def _len_forms(a: str) -> Set[str]:
     return {"%s.shape[0]" % a, "len(%s)" % a, "%s.size" % a}
 
 
+_CLAMPED: Dict[int, Optional[ast.AST]] = {}
+
+
 def searchsorted_sites(repo: Repo) -> List[Tuple[Func, ast.AST, ast.Call, str, str]]:
     """(function, store target, call, array text, key text)"""
     out = []
@@ -82,9 +85,12 @@ def searchsorted_sites(repo: Repo) -> List[Tuple[Func, ast.AST, ast.Call, str, s
         if not f.is_njit:
             continue
         for n in walk_no_nested(f.node):
-            if isinstance(n, ast.Assign) and isinstance(n.value, ast.Call):
-                if repo.canonical(f.module, n.value.func) == "numpy.searchsorted" and len(n.value.args) >= 2:
-                    out.append((f, n.targets[0], n.value, norm(n.value.args[0]), norm(n.value.args[1])))
+            if isinstance(n, ast.Assign):
+                # the call itself, or the call inside a clamp such as min(np.searchsorted(A, k), len(A) - 1)
+                for c in ast.walk(n.value):
+                    if isinstance(c, ast.Call) and repo.canonical(f.module, c.func) == "numpy.searchsorted" and len(c.args) >= 2:
+                        out.append((f, n.targets[0], c, norm(c.args[0]), norm(c.args[1])))
+                        _CLAMPED[id(c)] = n.value if c is not n.value else None
     return out
 
 
@@ -131,6 +137,30 @@ def r10_2(repo: Repo, rule: str = "R10.2") -> RuleResult:
                 if isinstance(a, (ast.FunctionDef,)):
                     break
                 prev = a
+            wrapper = _CLAMPED.get(id(call))
+            if wrapper is not None:
+                # min(pos, len(A) - 1): in range only if A is not empty - the empty slice gives -1
+                wtxt = norm(wrapper).replace(" ", "")
+                clamp = isinstance(wrapper, ast.Call) and norm(wrapper.func) == "min" and any(
+                    norm(a).replace(" ", "") in ("%s-1" % lf.replace(" ", "") for lf in _len_forms(arr)) for a in wrapper.args)
+                nonempty = False
+                prev2 = u
+                for a in ancestors(u, pm):
+                    if isinstance(a, ast.If) and any(prev2 is s2 or any(prev2 is x for x in ast.walk(s2)) for s2 in a.body):
+                        for v in ([a.test] if not (isinstance(a.test, ast.BoolOp) and isinstance(a.test.op, ast.And)) else a.test.values):
+                            if isinstance(v, ast.Compare) and len(v.ops) == 1 and isinstance(v.ops[0], ast.Gt) and norm(v.left) in _len_forms(arr) \
+                                    and norm(v.comparators[0]) == "0":
+                                nonempty = True
+                    prev2 = a
+                if clamp and nonempty:
+                    guard = "clamp min(pos, len(%s) - 1) under a non-empty test" % arr
+                elif clamp:
+                    # (a range test `pos < len` does not help: the clamped position is negative)
+                    rr.bad(f, construct,
+                           "the searchsorted position is clamped with `%s`, which is -1 when `%s` is empty (a row whose cells were all "
+                           "thresholded away): the access then wraps to / reads outside the slice; a range test `pos < len(%s)` is needed"
+                           % (short(wrapper, 60), arr, arr), u.lineno)
+                    continue
             if guard:
                 rr.ok(f, construct, "guarded by %s" % guard, u.lineno)
             else:
